@@ -78,3 +78,25 @@ def xp_of(name):
     else:
         raise ValueError(name)
     return xp
+
+
+class debug_logging:
+    """Context: the library's logger at DEBUG (records discarded) - what a user debugging a run has switched on.
+    Code guarded by logger.isEnabledFor(DEBUG) and every debug format string is executed."""
+
+    def __enter__(self):
+        import logging
+
+        self.lg = logging.getLogger("aspire")
+        self.prev = (self.lg.level, self.lg.propagate, list(self.lg.handlers))
+        self.h = logging.NullHandler()
+        self.lg.addHandler(self.h)
+        self.lg.propagate = False
+        self.lg.setLevel(logging.DEBUG)
+        return self
+
+    def __exit__(self, *exc):
+        self.lg.removeHandler(self.h)
+        self.lg.setLevel(self.prev[0])
+        self.lg.propagate = self.prev[1]
+        return False
